@@ -663,6 +663,8 @@ func runPair3(m *Model, r *RuleResult) {
 						}
 						isClone = o.Pkg != nil && o.Pkg.Pkg.Path() == "slices" && o.Name() == "Clone"
 					}
+					// a same-package helper must hand the points on as a copy of the same length (checked by FLOW-1 for the
+					// shift); library functions other than Clone (Compact, Delete, Reverse ...) change the list
 					if isClone || (cal != nil && inFam[cal]) || (cal != nil && pkgPathOf(cal) == pkgPathOf(fam[0])) {
 						for _, a := range call.Call.Args {
 							if ebase, loc, ok := loadOf(a); ok && loc == igEdge+".Points" {
@@ -2388,42 +2390,179 @@ func runBal1(m *Model, r *RuleResult) {
 			pos := m.Pos(st.Pos())
 			ctl := m.FuncIsPosctl(f)
 			r.add(Obligation{Key: key + ":neutral-only", Pos: pos, Desc: "only nodes with equal in- and out-degree are moved (total edge length unchanged)", Verdict: "holds", Control: ctl})
-			// window: low = max-reduction of From.Layer + Delta, high = min-reduction of To.Layer - Delta
+			// window: low = max-reduction of From.Layer + Delta over node.In, high = min-reduction of To.Layer - Delta over
+			// node.Out - computed inside the loop that moves the nodes (so that it reflects earlier moves), in this function
+			// or in a helper of the package called there with the node
 			var low, high ssa.Value
-			eachInstr(f, func(in2 ssa.Instruction) {
-				call, ok := in2.(*ssa.Call)
-				if !ok {
-					return
-				}
-				b, ok := call.Call.Value.(*ssa.Builtin)
-				if !ok {
-					return
-				}
-				for _, a := range call.Call.Args {
-					bo, ok := a.(*ssa.BinOp)
+			floops := naturalLoops(f)
+			var moving *loopInfo
+			if ls := loopsContaining(floops, st.Block()); len(ls) > 0 {
+				moving = ls[len(ls)-1]
+			}
+			stale := ""
+			// reductionsIn: the max / min reduction calls of function g over the In / Out list of node value nd
+			reductionsIn := func(g *ssa.Function, nd ssa.Value) (lo, hi *ssa.Call) {
+				eachInstr(g, func(in2 ssa.Instruction) {
+					call, ok := in2.(*ssa.Call)
 					if !ok {
-						continue
+						return
 					}
-					layerOf := func(v ssa.Value, endpoint string) bool {
-						u, ok := v.(*ssa.UnOp)
-						if !ok || u.Op != token.MUL {
-							return false
-						}
-						fa2, ok := u.X.(*ssa.FieldAddr)
+					b, ok := call.Call.Value.(*ssa.Builtin)
+					if !ok {
+						return
+					}
+					for _, a := range call.Call.Args {
+						bo, ok := a.(*ssa.BinOp)
 						if !ok {
-							return false
+							continue
 						}
-						b2, s2 := fieldChain(fa2)
-						return locOfSteps(s2) == igNode+".Layer" && isLoadOf(b2, igEdge+"."+endpoint)
+						// bo.X = load Layer of (load <endpoint> of e), e an element of nd.<list>
+						edgeOf := func(v ssa.Value, endpoint, list string) bool {
+							u, ok := v.(*ssa.UnOp)
+							if !ok || u.Op != token.MUL {
+								return false
+							}
+							fa2, ok := u.X.(*ssa.FieldAddr)
+							if !ok {
+								return false
+							}
+							b2, s2 := fieldChain(fa2)
+							if locOfSteps(s2) != igNode+".Layer" {
+								return false
+							}
+							eu, ok := b2.(*ssa.UnOp)
+							if !ok || eu.Op != token.MUL {
+								return false
+							}
+							efa, ok := eu.X.(*ssa.FieldAddr)
+							if !ok {
+								return false
+							}
+							ev, es := fieldChain(efa)
+							if locOfSteps(es) != igEdge+"."+endpoint {
+								return false
+							}
+							// ev = *(&(nd.<list>)[i])
+							el, ok := ev.(*ssa.UnOp)
+							if !ok || el.Op != token.MUL {
+								return false
+							}
+							ia, ok := el.X.(*ssa.IndexAddr)
+							if !ok {
+								return false
+							}
+							ll, ok := ia.X.(*ssa.UnOp)
+							if !ok || ll.Op != token.MUL {
+								return false
+							}
+							lfa, ok := ll.X.(*ssa.FieldAddr)
+							if !ok {
+								return false
+							}
+							lb, lsx := fieldChain(lfa)
+							return locOfSteps(lsx) == igNode+"."+list && (lb == nd || sameSSAExpr(lb, nd, 0))
+						}
+						if b.Name() == "max" && bo.Op == token.ADD && edgeOf(bo.X, "From", "In") && isLoadOf(bo.Y, igEdge+".Delta") {
+							lo = call
+						}
+						if b.Name() == "min" && bo.Op == token.SUB && edgeOf(bo.X, "To", "Out") && isLoadOf(bo.Y, igEdge+".Delta") {
+							hi = call
+						}
 					}
-					if b.Name() == "max" && bo.Op == token.ADD && layerOf(bo.X, "From") && isLoadOf(bo.Y, igEdge+".Delta") {
-						low = call
-					}
-					if b.Name() == "min" && bo.Op == token.SUB && layerOf(bo.X, "To") && isLoadOf(bo.Y, igEdge+".Delta") {
-						high = call
+				})
+				return
+			}
+			if lo, hi := reductionsIn(f, node); lo != nil || hi != nil {
+				if lo != nil {
+					low = lo
+					if moving != nil && !moving.Body[lo.Block()] {
+						stale = "the lower bound is computed at " + m.Pos(lo.Pos()) + ", before the loop that moves the nodes"
 					}
 				}
-			})
+				if hi != nil {
+					high = hi
+					if moving != nil && !moving.Body[hi.Block()] {
+						stale = "the upper bound is computed at " + m.Pos(hi.Pos()) + ", before the loop that moves the nodes"
+					}
+				}
+			}
+			if low == nil || high == nil {
+				// a helper of the package, called with the node inside the moving loop, that returns the two reductions
+				eachInstr(f, func(in2 ssa.Instruction) {
+					call, ok := in2.(*ssa.Call)
+					if !ok || call.Call.StaticCallee() == nil || pkgPathOf(call.Call.StaticCallee()) != pkgPathOf(f) || call.Referrers() == nil {
+						return
+					}
+					h := call.Call.StaticCallee()
+					pi := -1
+					for i, a := range call.Call.Args {
+						if a == node && i < len(h.Params) {
+							pi = i
+						}
+					}
+					if pi < 0 || len(h.Blocks) == 0 {
+						return
+					}
+					lo, hi := reductionsIn(h, h.Params[pi])
+					if lo == nil && hi == nil {
+						return
+					}
+					// which result carries which reduction
+					for _, ref := range *call.Referrers() {
+						ex, ok := ref.(*ssa.Extract)
+						if !ok {
+							continue
+						}
+						eachInstr(h, func(in3 ssa.Instruction) {
+							ret, ok := in3.(*ssa.Return)
+							if !ok || ex.Index >= len(ret.Results) {
+								return
+							}
+							rv := ret.Results[ex.Index]
+							carries := func(target *ssa.Call) bool {
+								if target == nil {
+									return false
+								}
+								seen := map[ssa.Value]bool{}
+								var walk func(x ssa.Value) bool
+								walk = func(x ssa.Value) bool {
+									if x == ssa.Value(target) {
+										return true
+									}
+									if seen[x] {
+										return false
+									}
+									seen[x] = true
+									if p, ok := x.(*ssa.Phi); ok {
+										for _, e := range p.Edges {
+											if walk(e) {
+												return true
+											}
+										}
+									}
+									return false
+								}
+								return walk(rv)
+							}
+							if carries(lo) && low == nil {
+								low = ex
+							}
+							if carries(hi) && high == nil {
+								high = ex
+							}
+						})
+					}
+					if moving != nil && !moving.Body[call.Block()] {
+						stale = "the window is computed at " + m.Pos(call.Pos()) + ", before the loop that moves the nodes"
+					}
+				})
+			}
+			if stale != "" {
+				r.add(Obligation{Key: key + ":fresh-window", Pos: pos, Desc: "the window of a node must be computed from the current layers of its neighbours", Verdict: "violation",
+					Detail: stale + ": once a node has moved, the windows of its neighbours no longer reflect it, and two adjacent nodes can pass each other (flat or upward edge)", Control: ctl})
+			} else if low != nil && high != nil {
+				r.add(Obligation{Key: key + ":fresh-window", Pos: pos, Desc: "the window is computed inside the loop that moves the nodes, from the node's own In / Out lists", Verdict: "holds", Control: ctl})
+			}
 			if low != nil {
 				r.add(Obligation{Key: key + ":lower-bound", Pos: pos, Desc: "lower end of the window is the max over in-edges of From.Layer + Delta", Verdict: "holds", Control: ctl})
 			} else {
@@ -2493,7 +2632,12 @@ func runBal1(m *Model, r *RuleResult) {
 				for lf := range leaves {
 					switch x := lf.(type) {
 					case *ssa.Call:
-						if x != low {
+						if ssa.Value(x) != low {
+							okSel = false
+							why = "the stored layer can be " + x.String()
+						}
+					case *ssa.Extract:
+						if ssa.Value(x) != low {
 							okSel = false
 							why = "the stored layer can be " + x.String()
 						}
